@@ -364,6 +364,12 @@ func checkC18(c *core.Ctx) {
 	c.Decide("rows of accounts are inserted only by UpsertAccounts and UpdateAccountsMetadata; insertion_date is assigned by no UPDATE anywhere; first_usage is assigned only through a minimum (LEAST(new, old) or the equivalent CASE); after CommitTransaction every success path of createTransaction and the import of a created transaction upserts the transaction's accounts on the same store; AccountsWithDefaultMetadata takes FirstUsage from the transaction timestamp and covers involved accounts plus accounts with metadata; InvolvedAccounts lists both sides of every posting")
 	c.NotDecided("the result of the upsert CTE under concurrency")
 	c.Trust("Postgres LEAST/CASE semantics")
+	ruleAccountsLifecycle(c)
+}
+
+// ruleAccountsLifecycle: who creates accounts, immutability of insertion_date, first_usage only
+// lowered (and every row that needs lowering reached), accounts upserted after every commit.
+func ruleAccountsLifecycle(c *core.Ctx) {
 	ws := tableWriters(c)
 	for _, w := range opaqueWriters(ws) {
 		c.Unknown("WMC/accounts", "opaque-writer:"+w.Origin, w.Pos, w.Opaque)
@@ -398,6 +404,33 @@ func checkC18(c *core.Ctx) {
 				okMin = true
 			}
 			c.Check(okMin, "SQLS/first-usage-min", key, w.Pos, "first_usage = min(new, old)", "first_usage is assigned "+cn+": it may only be lowered (minimum of the stored and the new date)")
+			// an UPDATE arm must reach every row whose first_usage has to be lowered: every
+			// WHERE conjunct that is not the row identification admits `new < old`
+			if w.SQL != nil && w.SQL.Kind == "update" && w.SQL.Where != nil {
+				okReach := true
+				bad := ""
+				for _, cj := range sqlfe.Conjuncts(w.SQL.Where) {
+					cc := sqlfe.Canon(cj)
+					if strings.Contains(cc, "address") && strings.Contains(cc, " = ") && !strings.Contains(cc, " or ") {
+						continue // row identification
+					}
+					if strings.Contains(cc, "ledger") && strings.Contains(cc, " = ") && !strings.Contains(cc, " or ") {
+						continue // ledger scoping
+					}
+					admits := false
+					for _, dj := range sqlfe.Disjuncts(sqlfe.Unparen(cj)) {
+						dc := sqlfe.Canon(dj)
+						if dc == "(d.first_usage < a.first_usage)" || dc == "(a.first_usage > d.first_usage)" {
+							admits = true
+						}
+					}
+					if !admits {
+						okReach = false
+						bad = cc
+					}
+				}
+				c.Check(okReach, "SQLS/first-usage-min", key+":reaches-earlier-usage", w.Pos, "the update reaches rows with an earlier new first_usage", "the UPDATE that lowers first_usage is restricted by "+bad+", which excludes an account whose only change is an earlier first usage: a back-dated transaction no longer lowers first_usage and point-in-time listings miss the account")
+			}
 		}
 	}
 	c.Floor("WMC/accounts", "writers of accounts", n, 4)
@@ -646,6 +679,13 @@ func ruleRevertBalanceCheck(c *core.Ctx) {
 	effs := amountEffects(info, d.Decl.Body)
 	got := effectSigs(effs)
 	c.Check(strings.Join(got, " ") == "(balance,+,Destination) (balance,-,Source)", "FLOW/revert-balances", key+":effects", pos(c, d.Decl), strings.Join(got, " "), fmt.Sprintf("the simulated balances change by %v, expected (balance,-,Source) (balance,+,Destination) over the reverse's postings", got))
+	for _, e := range effs {
+		// the destination side is legitimately conditional on the account being tracked; what
+		// must not happen is one side being the alternative of the other
+		if e.Exclusive {
+			c.Fail("FLOW/revert-balances", key+":independent:"+e.Sig(), posOf(c, e.Pos), "the "+e.Role+" side of the simulated balance change is applied only when the other side's test failed")
+		}
+	}
 	// the insufficient-funds return
 	var negIf *ast.IfStmt
 	ast.Inspect(d.Decl.Body, func(n ast.Node) bool {
